@@ -89,7 +89,8 @@ type mPanic struct {
 type mframe struct {
 	fn        *ssa.Function
 	caller    *mframe
-	env       map[ssa.Value]mv
+	env       []mv
+	idx       map[ssa.Value]int32
 	block     *ssa.BasicBlock
 	prev      *ssa.BasicBlock
 	defers    []func()
@@ -105,6 +106,7 @@ type mach struct {
 	symHeap  map[string]*mv
 	steps    int
 	maxSteps int
+	finfo    map[*ssa.Function]map[ssa.Value]int32
 	depth    int
 	nsym     int
 	// intercept is asked before any statically resolved call (module or not): handled=true → its result is used
@@ -124,7 +126,7 @@ type mach struct {
 }
 
 func newMach(c *Ctx) *mach {
-	return &mach{c: c, globals: map[*ssa.Global]*mv{}, inited: map[*ssa.Package]bool{}, symHeap: map[string]*mv{}, maxSteps: 400000}
+	return &mach{c: c, globals: map[*ssa.Global]*mv{}, inited: map[*ssa.Package]bool{}, symHeap: map[string]*mv{}, maxSteps: 400000, finfo: map[*ssa.Function]map[ssa.Value]int32{}}
 }
 
 func (m *mach) sym(name string, t types.Type) *mSym { return &mSym{name: name, typ: t} }
@@ -781,11 +783,38 @@ func (m *mach) get(fr *mframe, v ssa.Value) mv {
 	case *ssa.Builtin:
 		return t
 	}
-	if x, ok := fr.env[v]; ok {
-		return x
+	if i, ok := fr.idx[v]; ok {
+		if x := fr.env[i]; x != nil {
+			return x
+		}
 	}
 	m.abort("value %s used before definition in %s", v.Name(), fr.fn.Name())
 	return nil
+}
+
+func (fr *mframe) set(v ssa.Value, x mv) { fr.env[fr.idx[v]] = x }
+
+// valueIndex numbers the parameters, free variables and value-producing instructions of fn.
+func (m *mach) valueIndex(fn *ssa.Function) map[ssa.Value]int32 {
+	if ix, ok := m.finfo[fn]; ok {
+		return ix
+	}
+	ix := map[ssa.Value]int32{}
+	for _, p := range fn.Params {
+		ix[p] = int32(len(ix))
+	}
+	for _, fv := range fn.FreeVars {
+		ix[fv] = int32(len(ix))
+	}
+	for _, b := range fn.Blocks {
+		for _, in := range b.Instrs {
+			if v, ok := in.(ssa.Value); ok {
+				ix[v] = int32(len(ix))
+			}
+		}
+	}
+	m.finfo[fn] = ix
+	return ix
 }
 
 func (m *mach) callFn(caller *mframe, fn *ssa.Function, args []mv, env []mv) mv {
@@ -821,17 +850,18 @@ func (m *mach) callFn(caller *mframe, fn *ssa.Function, args []mv, env []mv) mv 
 	}
 	m.depth++
 	defer func() { m.depth-- }()
-	fr := &mframe{fn: fn, caller: caller, env: map[ssa.Value]mv{}}
+	ix := m.valueIndex(fn)
+	fr := &mframe{fn: fn, caller: caller, env: make([]mv, len(ix)), idx: ix}
 	for i, p := range fn.Params {
 		if i < len(args) {
-			fr.env[p] = args[i]
+			fr.set(p, args[i])
 		} else {
-			fr.env[p] = m.zero(p.Type())
+			fr.set(p, m.zero(p.Type()))
 		}
 	}
 	for i, fv := range fn.FreeVars {
 		if i < len(env) {
-			fr.env[fv] = env[i]
+			fr.set(fv, env[i])
 		}
 	}
 	fr.block = fn.Blocks[0]
@@ -935,7 +965,7 @@ func (m *mach) runFrame(fr *mframe) {
 			case *ssa.Phi:
 				for i, p := range blk.Preds {
 					if p == fr.prev {
-						fr.env[t] = m.get(fr, t.Edges[i])
+						fr.set(t, m.get(fr, t.Edges[i]))
 						break
 					}
 				}
@@ -1006,7 +1036,7 @@ func (m *mach) runFrame(fr *mframe) {
 				mp.k[ks] = k
 				mp.v[ks] = mcopy(m.get(fr, t.Value))
 			case ssa.Value:
-				fr.env[t] = m.eval(fr, t)
+				fr.set(t, m.eval(fr, t))
 			default:
 				m.abort("instruction %T at %s", in, m.c.Pos(in.Pos()))
 			}
@@ -1148,29 +1178,40 @@ func (m *mach) builtin(fr *mframe, b *ssa.Builtin, args []mv, at ssa.Instruction
 		default:
 			m.abort("append to %s at %s", mRender(args[0]), m.c.Pos(at.Pos()))
 		}
+		var add []mv
 		switch y := args[1].(type) {
 		case mSlice:
-			out := base
 			for _, e := range y.arr {
-				out = append(out, mcopy(e))
+				add = append(add, mcopy(e))
 			}
-			if out == nil {
-				return mNil
-			}
-			return mSlice{out}
 		case mNilT:
+		case string:
+			for _, c := range []byte(y) {
+				add = append(add, int64(c))
+			}
+		default:
+			m.abort("append of %s at %s", mRender(args[1]), m.c.Pos(at.Pos()))
+		}
+		if len(add) == 0 {
 			if base == nil {
 				return mNil
 			}
 			return mSlice{base}
-		case string:
-			out := base
-			for _, c := range []byte(y) {
-				out = append(out, int64(c))
-			}
-			return mSlice{out}
 		}
-		m.abort("append of %s at %s", mRender(args[1]), m.c.Pos(at.Pos()))
+		if len(base)+len(add) <= cap(base) {
+			return mSlice{append(base, add...)} // in place, as the runtime does: aliases see the write
+		}
+		// grow as the Go runtime does (the aliasing behaviour of later appends depends on the capacity)
+		var esize int64 = 8
+		if call, ok := at.(*ssa.Call); ok {
+			if st, ok := call.Type().Underlying().(*types.Slice); ok {
+				esize = mSizes.Sizeof(st.Elem())
+			}
+		}
+		nc := growCap(int64(cap(base)), int64(len(base)+len(add)), esize)
+		out := make([]mv, len(base), nc)
+		copy(out, base)
+		return mSlice{append(out, add...)}
 	case "copy":
 		dst, ok := args[0].(mSlice)
 		if !ok {
@@ -1602,10 +1643,18 @@ func (m *mach) convert(t *ssa.Convert, x mv) mv {
 					arr = append(arr, int64(r))
 				}
 			}
-			if arr == nil {
-				arr = []mv{}
+			esz := int64(4)
+			if el.Kind() == types.Byte {
+				esz = 1
 			}
-			return mSlice{arr}
+			n := int64(len(arr))
+			cp := n
+			if n > 0 {
+				cp = roundupsize(n*esz) / esz
+			}
+			out := make([]mv, n, cp)
+			copy(out, arr)
+			return mSlice{out}
 		}
 		if c, ok := x.(*mCat); ok {
 			// every symbolic part is one element
@@ -1681,4 +1730,36 @@ func sortedKeys(mm map[string]bool) []string {
 	}
 	sort.Strings(ks)
 	return ks
+}
+
+var mSizes = types.SizesFor("gc", "amd64")
+
+var sizeClasses = []int64{8, 16, 24, 32, 48, 64, 80, 96, 112, 128, 144, 160, 176, 192, 208, 224, 240, 256, 288, 320, 352, 384, 416, 448, 480, 512, 576, 640, 704, 768, 896, 1024, 1152, 1280, 1408, 1536, 1792, 2048, 2304, 2688, 3072, 3200, 3456, 4096, 4864, 5120, 5376, 6144, 6528, 6784, 6912, 8192, 9472, 9728, 10240, 10880, 12288, 13568, 14336, 16384, 18432, 19072, 20480, 21760, 24576, 27264, 28672, 32768}
+
+func roundupsize(n int64) int64 {
+	for _, c := range sizeClasses {
+		if n <= c {
+			return c
+		}
+	}
+	return (n + 8191) / 8192 * 8192
+}
+
+// growCap: the capacity runtime.growslice gives (gc, amd64).
+func growCap(oldCap, newLen, esize int64) int64 {
+	newcap := oldCap
+	doublecap := newcap + newcap
+	if newLen > doublecap {
+		newcap = newLen
+	} else if oldCap < 256 {
+		newcap = doublecap
+	} else {
+		for newcap < newLen {
+			newcap += (newcap + 3*256) >> 2
+		}
+	}
+	if esize <= 0 {
+		return newcap
+	}
+	return roundupsize(newcap*esize) / esize
 }
